@@ -1087,6 +1087,8 @@ func (sq *Queue) RemoveApplication(app *Application) {
 	app.appEvents.SendRemoveApplicationEvent(appID)
 
 	sq.parent.UpdateQueuePriority(sq.Name, priority)
+	// setAllocatingAccepted marked the whole chain: clear the ancestors too
+	sq.parent.clearAllocatingAccepted(appID)
 
 	log.Log(log.SchedQueue).Info("Application completed and removed from queue",
 		zap.String("queueName", sq.QueuePath),
@@ -2062,6 +2064,20 @@ func (sq *Queue) decRunningApps() {
 		log.Log(log.SchedQueue).Debug("queue running apps went negative",
 			zap.String("queueName", sq.QueuePath))
 	}
+}
+
+// clearAllocatingAccepted stops tracking the application as an accepted application with placeholders allocated.
+// For this queue (recursively).
+func (sq *Queue) clearAllocatingAccepted(appID string) {
+	if sq == nil {
+		return
+	}
+	if sq.parent != nil {
+		sq.parent.clearAllocatingAccepted(appID)
+	}
+	sq.Lock()
+	defer sq.Unlock()
+	delete(sq.allocatingAcceptedApps, appID)
 }
 
 // setAllocatingAccepted tracks the application in accepted state that have placeholders allocated.
